@@ -45,6 +45,10 @@ def configs(tier):
                     if t0 and (tier == 'quick' and g != 'u5'):
                         continue
                     out.append(dict(kind='growth', spec=sp, grid=g, vol=vol, safe=False, t0=t0, bound=2))
+                    # a grid whose first point lies after the interface's initial time (the volume grows from the initial time on)
+                    if g == 'u5' and (tier == 'thorough' or vol.get('z') in (None, -1.0)):
+                        for lead in ((0.25,) if tier == 'quick' else (0.25, 0.375, 1.0)):
+                            out.append(dict(kind='growth', spec=sp, grid=g, vol=vol, safe=False, t0=t0, lead=lead, bound=2))
     return out
 
 
@@ -98,7 +102,7 @@ def EXr(tree):
 def run_config(c, cfg):
     sp = cfg['spec']
     t0 = cfg.get('t0', 0.0)
-    times = [t0 + t for t in TIMES[cfg['grid']]]
+    times = [t0 + cfg.get('lead', 0.0) + t for t in TIMES[cfg['grid']]]
     vdt = times[1] - times[0]
     impl = e1.Impl(sp, cfg['safe'])
     net = RS.Net(sp, 'stochvol', cfg['safe'])
@@ -158,7 +162,7 @@ def run_config(c, cfg):
     EXP.explore(lambda: RS.volume_ssa(net, times, vdt, vref, t0=t0), cfg['bound'], on_trace)
     c.count('states', len(states))
     if len(outcomes) > 1 or cfg['kind'] == 'growth':
-        c.nontrivial((sp['name'], cfg['kind'], str(cfg.get('V')), str(cfg.get('vol')), cfg['grid'], cfg['safe'], cfg.get('route'), cfg.get('t0')))
+        c.nontrivial((sp['name'], cfg['kind'], str(cfg.get('V')), str(cfg.get('vol')), cfg['grid'], cfg['safe'], cfg.get('route'), cfg.get('t0'), cfg.get('lead')))
 
 
 def growth_invariants(cfg, times, vdt, vref, got):
@@ -204,7 +208,7 @@ def run(ctx):
     ctx.rule = ('E1+E2: (i) constant volume V: every C05 network (all propensity types, orders 0..3) plus an order-0/order-3 mix, plain '
                 'and safe, through VolumeSSASimulator and through py_simulate_model(volume=V): the choice tree of the reference volume '
                 'sampler (volume-scaled closed-form rates) is explored to the cost bound and every trace replayed; (ii) growth and '
-                'division: StochasticTimeThresholdVolume (cycle times x scripted division-time noise) and StateDependentVolume x start times {0, 0.5} x grid '
+                'division: StochasticTimeThresholdVolume (cycle times x scripted division-time noise) and StateDependentVolume x start times {0, 0.5} x grids that start at or after the initial time (lead 0, 0.25; thorough 0.375, 1) x grid '
                 'steps {0.125,0.25,0.5} x models with no reactions, with reactions, and whose propensity becomes zero mid-run: every '
                 'trace replayed, and the implementation\'s own output checked against the growth law (positive, non-decreasing, within '
                 'one step of V0*2^(t/cycle), ends at the first grid time at which division is reported). states = distinct (state, '
